@@ -1343,3 +1343,100 @@ mod multiline_strings;
 mod parent_pointer_tree;
 mod requirements;
 mod types;
+
+/// Verification hooks (feature `pasfmt_verif`): build the internal state directly and forward.
+#[cfg(feature = "pasfmt_verif")]
+pub mod verif_hooks_olf {
+    use super::*;
+
+    pub use super::multiline_strings::verif_hooks_multiline as multiline_strings;
+
+    fn with_internal<R>(
+        settings: &OptimisingLineFormatterSettings,
+        recon_settings: &ReconstructionSettings,
+        formatted_tokens: &mut FormattedTokens<'_>,
+        lines: &[LogicalLine],
+        f: impl FnOnce(&mut InternalOptimisingLineFormatter) -> R,
+    ) -> R {
+        let line_children = FxHashMap::default();
+        let mut olf = InternalOptimisingLineFormatter {
+            settings,
+            recon_settings,
+            formatted_tokens,
+            lines,
+            line_children: &line_children,
+            token_types: Vec::new(),
+            token_lengths: Vec::new(),
+            child_line_cache: Default::default(),
+        };
+        f(&mut olf)
+    }
+
+    /// 0 = none, 1 = Indifferent, 2 = Invalid, 3 = MustBreak, 4 = MustNotBreak
+    pub fn formatting_invariant(
+        settings: &OptimisingLineFormatterSettings,
+        recon_settings: &ReconstructionSettings,
+        formatted_tokens: &mut FormattedTokens<'_>,
+        line: &LogicalLine,
+        line_index: u32,
+    ) -> u8 {
+        with_internal(settings, recon_settings, formatted_tokens, &[], |olf| {
+            match olf.get_formatting_invariant(line_index, line) {
+                None => 0,
+                Some(DR::Indifferent) => 1,
+                Some(DR::Invalid) => 2,
+                Some(DR::MustBreak) => 3,
+                Some(DR::MustNotBreak) => 4,
+            }
+        })
+    }
+
+    /// Applies a childless solution (`Some(continuations)` = break, `None` = continue, one entry
+    /// per token of `line`) through `reconstruct_solution`.
+    pub fn apply_solution(
+        settings: &OptimisingLineFormatterSettings,
+        recon_settings: &ReconstructionSettings,
+        formatted_tokens: &mut FormattedTokens<'_>,
+        line: &LogicalLine,
+        starting_ws: (u16, u16),
+        decisions: &[Option<u16>],
+    ) {
+        let solution = FormattingSolution {
+            starting_ws: LineWhitespace {
+                indentations: starting_ws.0,
+                continuations: starting_ws.1,
+            },
+            decisions: decisions
+                .iter()
+                .map(|d| TokenDecision {
+                    decision: match d {
+                        Some(continuations) => Decision::Break {
+                            continuations: *continuations,
+                        },
+                        None => Decision::Continue,
+                    },
+                    requirement: DR::Indifferent,
+                    child_solutions: Vec::new(),
+                    last_line_length: 0,
+                })
+                .collect(),
+            penalty: 0,
+            solution_length: 0,
+        };
+        with_internal(settings, recon_settings, formatted_tokens, &[], |olf| {
+            olf.reconstruct_solution(&solution, line)
+        })
+    }
+
+    pub fn line_whitespace_len(
+        indentations: u16,
+        continuations: u16,
+        recon_settings: &ReconstructionSettings,
+    ) -> u32 {
+        LineWhitespace {
+            indentations,
+            continuations,
+        }
+        .len(recon_settings)
+    }
+}
